@@ -42,6 +42,13 @@ func (core *JApiCore) drainCurrentScanner() *jerr.JApiError {
 			break
 		}
 
+		if core.resumedAfterInclude {
+			core.resumedAfterInclude = false
+			if je = checkIncludeLineTail(lexeme); je != nil {
+				return je
+			}
+		}
+
 		if isIncludeKeyword(lexeme) {
 			je = core.processInclude(lexeme)
 		} else {
@@ -184,6 +191,7 @@ func (core *JApiCore) isScanningFinished() bool {
 		return true
 	}
 	core.scanner = s
+	core.resumedAfterInclude = true
 	return false
 }
 
